@@ -1,10 +1,705 @@
-// tacd-sim placeholder (filled in later)
-pub struct SimListener;
-impl SimListener {
-	pub fn bind(_addr: &str) -> std::io::Result<SimListener> {
-		Err(std::io::Error::new(std::io::ErrorKind::Other, "tacd-sim not built yet"))
+// tacd-sim: the real tacd binary (shipped panic profile) over a simulated listener.
+// `SimListener::incoming()` IS the simulator's main loop: it runs on tacd's accept thread, hands out
+// in-memory streams (each hand-out makes the shipped accept loop spawn its per-connection thread),
+// drives scripted clients (real OpenSSL client state machines over in-memory queues, or literal
+// bytes), and releases exactly one parked handler thread at a time, so the seed -- not the kernel --
+// decides who runs.  After the scripted history it performs a valid acme-tls/1 handshake, judges
+// the certificate (C16's oracle), writes the result record and exits the process.
+// See /verif/DESIGN.md Appendix B.
+#![allow(dead_code)]
+
+#[path = "../common/idna.rs"]
+mod idna;
+#[path = "../acmed/ca/der.rs"]
+mod der;
+
+use openssl::ssl::{HandshakeError, MidHandshakeSslStream, SslConnector, SslMethod, SslStream, SslVerifyMode};
+use serde_json::{json, Value};
+use std::collections::VecDeque;
+use std::io::{self, Read, Write};
+use std::sync::{Arc, Condvar, Mutex};
+use std::time::Duration;
+
+#[derive(Default, Debug)]
+struct Conn {
+	c2s: VecDeque<u8>,
+	s2c: VecDeque<u8>,
+	client_closed: bool,
+	client_reset: bool,
+	server_closed: bool,
+	server_waiting: bool,
+	go: bool,
+	server_panicked: bool,
+	handed_out: bool,
+	reads: u64,
+}
+
+#[derive(Default)]
+struct World {
+	conns: Vec<Conn>,
+	log: Vec<String>,
+}
+
+type Shared = Arc<(Mutex<World>, Condvar)>;
+
+pub struct SimStream {
+	id: usize,
+	w: Shared,
+}
+
+impl std::fmt::Debug for SimStream {
+	fn fmt(&self, f: &mut std::fmt::Formatter) -> std::fmt::Result {
+		write!(f, "SimStream({})", self.id)
 	}
-	pub fn incoming(&self) -> std::iter::Empty<std::io::Result<std::net::TcpStream>> {
-		std::iter::empty()
+}
+
+impl Read for SimStream {
+	fn read(&mut self, buf: &mut [u8]) -> io::Result<usize> {
+		let (m, cv) = &*self.w;
+		let mut g = m.lock().unwrap();
+		loop {
+			let c = &mut g.conns[self.id];
+			if c.go {
+				if c.client_reset {
+					return Err(io::Error::from_raw_os_error(104)); // ECONNRESET
+				}
+				if !c.c2s.is_empty() {
+					let n = buf.len().min(c.c2s.len());
+					for b in buf.iter_mut().take(n) {
+						*b = c.c2s.pop_front().unwrap();
+					}
+					c.reads += 1;
+					return Ok(n);
+				}
+				if c.client_closed {
+					return Ok(0);
+				}
+			}
+			// park: nothing to do until the simulator releases this handler with input available
+			c.go = false;
+			c.server_waiting = true;
+			cv.notify_all();
+			g = cv.wait(g).unwrap();
+		}
+	}
+}
+
+impl Write for SimStream {
+	fn write(&mut self, buf: &[u8]) -> io::Result<usize> {
+		let (m, _) = &*self.w;
+		let mut g = m.lock().unwrap();
+		let c = &mut g.conns[self.id];
+		if c.client_closed || c.client_reset {
+			return Err(io::Error::from_raw_os_error(32)); // EPIPE
+		}
+		c.s2c.extend(buf.iter());
+		Ok(buf.len())
+	}
+	fn flush(&mut self) -> io::Result<()> {
+		Ok(())
+	}
+}
+
+impl Drop for SimStream {
+	fn drop(&mut self) {
+		let (m, cv) = &*self.w;
+		if let Ok(mut g) = m.lock() {
+			let p = std::thread::panicking();
+			let c = &mut g.conns[self.id];
+			c.server_closed = true;
+			c.server_waiting = false;
+			c.server_panicked = p;
+			cv.notify_all();
+		}
+	}
+}
+
+/// The client's end of a connection: non-blocking Read/Write over the same queues.
+struct ClientPipe {
+	id: usize,
+	w: Shared,
+	/// deliver at most this many bytes per flush to the server (byte-at-a-time behaviour)
+	staged: Arc<Mutex<VecDeque<u8>>>,
+	trickle: bool,
+}
+
+impl std::fmt::Debug for ClientPipe {
+	fn fmt(&self, f: &mut std::fmt::Formatter) -> std::fmt::Result {
+		write!(f, "ClientPipe({})", self.id)
+	}
+}
+
+impl Read for ClientPipe {
+	fn read(&mut self, buf: &mut [u8]) -> io::Result<usize> {
+		let (m, _) = &*self.w;
+		let mut g = m.lock().unwrap();
+		let c = &mut g.conns[self.id];
+		if c.s2c.is_empty() {
+			if c.server_closed {
+				return Ok(0);
+			}
+			return Err(io::Error::new(io::ErrorKind::WouldBlock, "no data yet"));
+		}
+		let n = buf.len().min(c.s2c.len());
+		for b in buf.iter_mut().take(n) {
+			*b = c.s2c.pop_front().unwrap();
+		}
+		Ok(n)
+	}
+}
+
+impl Write for ClientPipe {
+	fn write(&mut self, buf: &[u8]) -> io::Result<usize> {
+		if self.trickle {
+			self.staged.lock().unwrap().extend(buf.iter());
+			return Ok(buf.len());
+		}
+		let (m, _) = &*self.w;
+		let mut g = m.lock().unwrap();
+		let c = &mut g.conns[self.id];
+		if c.server_closed {
+			return Err(io::Error::from_raw_os_error(32));
+		}
+		c.c2s.extend(buf.iter());
+		Ok(buf.len())
+	}
+	fn flush(&mut self) -> io::Result<()> {
+		Ok(())
+	}
+}
+
+enum Tls {
+	NotStarted,
+	Mid(MidHandshakeSslStream<ClientPipe>),
+	Done(SslStream<ClientPipe>),
+	Failed(String),
+}
+
+struct Client {
+	conn: usize,
+	kind: String,
+	alpn: Option<Vec<String>>,
+	tls: Tls,
+	staged: Arc<Mutex<VecDeque<u8>>>,
+	trickle: bool,
+	abandon_after_hello: bool,
+	reset_mid_record: bool,
+	literal: Option<Vec<u8>>,
+	finished: bool,
+	steps: u32,
+}
+
+pub struct SimListener {
+	w: Shared,
+	plan: Value,
+	result_path: String,
+}
+
+pub struct Incoming<'a> {
+	l: &'a SimListener,
+	rng: u64,
+	/// behaviours not yet started
+	todo: VecDeque<Value>,
+	clients: Vec<Client>,
+	await_park: Option<usize>,
+	final_started: bool,
+	events: Vec<String>,
+}
+
+fn splitmix(x: &mut u64) -> u64 {
+	*x = x.wrapping_add(0x9E37_79B9_7F4A_7C15);
+	let mut z = *x;
+	z = (z ^ (z >> 30)).wrapping_mul(0xBF58_476D_1CE4_E5B9);
+	z = (z ^ (z >> 27)).wrapping_mul(0x94D0_49BB_1331_11EB);
+	z ^ (z >> 31)
+}
+
+impl SimListener {
+	pub fn bind(addr: &str) -> io::Result<SimListener> {
+		let path = addr.trim_start_matches("sim:");
+		let s = std::fs::read_to_string(path)?;
+		let plan: Value = serde_json::from_str(&s).map_err(|e| io::Error::new(io::ErrorKind::InvalidData, e.to_string()))?;
+		Ok(SimListener {
+			w: Arc::new((Mutex::new(World::default()), Condvar::new())),
+			plan,
+			result_path: format!("{}.result", path),
+		})
+	}
+
+	pub fn incoming(&self) -> Incoming<'_> {
+		let todo: VecDeque<Value> = self.plan["history"].as_array().cloned().unwrap_or_default().into_iter().collect();
+		Incoming {
+			l: self,
+			rng: self.plan["sched_seed"].as_u64().unwrap_or(1),
+			todo,
+			clients: vec![],
+			await_park: None,
+			final_started: false,
+			events: vec![],
+		}
+	}
+}
+
+impl<'a> Incoming<'a> {
+	fn finish(&mut self, verdict: Value) -> ! {
+		let out = json!({ "verdict": verdict, "events": self.events });
+		let _ = std::fs::write(&self.l.result_path, serde_json::to_string(&out).unwrap());
+		// exit without unwinding the parked handler threads
+		std::process::exit(0);
+	}
+
+	fn harness_error(&mut self, msg: &str) -> ! {
+		let out = json!({ "harness_error": msg, "events": self.events });
+		let _ = std::fs::write(&self.l.result_path, serde_json::to_string(&out).unwrap());
+		std::process::exit(2);
+	}
+
+	/// wait until the handler of `conn` has parked in read() or dropped its stream
+	fn wait_parked(&mut self, conn: usize) {
+		let (m, cv) = &*self.l.w;
+		let mut g = m.lock().unwrap();
+		let mut waited = 0;
+		loop {
+			let c = &g.conns[conn];
+			if (c.server_waiting && !c.go) || c.server_closed {
+				return;
+			}
+			let (g2, to) = cv.wait_timeout(g, Duration::from_millis(200)).unwrap();
+			g = g2;
+			if to.timed_out() {
+				waited += 1;
+				if waited > 100 {
+					drop(g);
+					self.harness_error("handler thread neither parked nor finished within 20 s");
+				}
+			}
+		}
+	}
+
+	/// let the handler of `conn` run until it parks again or finishes
+	fn release(&mut self, conn: usize) {
+		{
+			let (m, cv) = &*self.l.w;
+			let mut g = m.lock().unwrap();
+			let c = &mut g.conns[conn];
+			if c.server_closed {
+				return;
+			}
+			if c.c2s.is_empty() && !c.client_closed && !c.client_reset {
+				return; // nothing the handler could do
+			}
+			c.go = true;
+			c.server_waiting = false;
+			cv.notify_all();
+		}
+		self.wait_parked(conn);
+		let (m, _) = &*self.l.w;
+		let g = m.lock().unwrap();
+		if g.conns[conn].server_panicked {
+			self.events.push(format!("conn{}:handler_panicked", conn));
+		}
+	}
+
+	fn new_conn(&mut self) -> (usize, SimStream) {
+		let (m, _) = &*self.l.w;
+		let mut g = m.lock().unwrap();
+		g.conns.push(Conn::default());
+		let id = g.conns.len() - 1;
+		g.conns[id].handed_out = true;
+		(id, SimStream { id, w: self.l.w.clone() })
+	}
+
+	fn make_client(&self, conn: usize, b: &Value) -> Client {
+		let kind = b["k"].as_str().unwrap_or("close").to_string();
+		let alpn = b["alpn"].as_array().map(|a| a.iter().filter_map(|x| x.as_str().map(|s| s.to_string())).collect());
+		Client {
+			conn,
+			kind: kind.clone(),
+			alpn,
+			tls: Tls::NotStarted,
+			staged: Arc::new(Mutex::new(VecDeque::new())),
+			trickle: b["trickle"].as_bool().unwrap_or(false),
+			abandon_after_hello: kind == "abandon",
+			reset_mid_record: kind == "reset_mid_record",
+			literal: match kind.as_str() {
+				"garbage" => {
+					let n = b["n"].as_u64().unwrap_or(64) as usize;
+					let mut s = b["seed"].as_u64().unwrap_or(7);
+					Some((0..n).map(|_| splitmix(&mut s) as u8).collect())
+				}
+				"http" => Some(b"GET / HTTP/1.1\r\nHost: example.org\r\nUser-Agent: probe\r\n\r\n".to_vec()),
+				_ => None,
+			},
+			finished: false,
+			steps: 0,
+		}
+	}
+
+	fn close_client(&mut self, conn: usize, reset: bool) {
+		let (m, cv) = &*self.l.w;
+		let mut g = m.lock().unwrap();
+		let c = &mut g.conns[conn];
+		if reset {
+			c.client_reset = true;
+		}
+		c.client_closed = true;
+		cv.notify_all();
+	}
+
+	/// One scheduling step for client `i`: let the client act, then release its handler.
+	fn step_client(&mut self, i: usize) {
+		let conn = self.clients[i].conn;
+		self.clients[i].steps += 1;
+		let kind = self.clients[i].kind.clone();
+		match kind.as_str() {
+			"close" => {
+				self.close_client(conn, false);
+				self.release(conn);
+				self.clients[i].finished = true;
+			}
+			"stall" => {
+				// connected, silent, kept open until the process exits
+				self.clients[i].finished = true;
+			}
+			"garbage" | "http" => {
+				let data = self.clients[i].literal.take();
+				if let Some(d) = data {
+					let (m, _) = &*self.l.w;
+					m.lock().unwrap().conns[conn].c2s.extend(d.iter());
+					self.release(conn);
+				} else {
+					self.close_client(conn, false);
+					self.release(conn);
+					self.clients[i].finished = true;
+				}
+			}
+			_ => self.step_tls(i),
+		}
+		if self.clients[i].finished {
+			self.events.push(format!("conn{}:{}:done", conn, kind));
+		}
+	}
+
+	fn connector(&self, alpn: &Option<Vec<String>>) -> SslConnector {
+		let mut b = SslConnector::builder(SslMethod::tls()).unwrap();
+		b.set_verify(SslVerifyMode::NONE);
+		if let Some(list) = alpn {
+			let mut wire = vec![];
+			for p in list {
+				wire.push(p.len() as u8);
+				wire.extend(p.as_bytes());
+			}
+			if !wire.is_empty() {
+				b.set_alpn_protos(&wire).unwrap();
+			}
+		}
+		b.build()
+	}
+
+	/// flush staged client bytes to the server, `n` at a time (trickle) or all
+	fn flush_staged(&mut self, i: usize) -> bool {
+		let conn = self.clients[i].conn;
+		let mut staged = self.clients[i].staged.lock().unwrap();
+		if staged.is_empty() {
+			return false;
+		}
+		let n = if self.clients[i].trickle { 1 + (splitmix(&mut self.rng) % 3) as usize } else { staged.len() };
+		let (m, _) = &*self.l.w;
+		let mut g = m.lock().unwrap();
+		for _ in 0..n.min(staged.len()) {
+			let b = staged.pop_front().unwrap();
+			g.conns[conn].c2s.push_back(b);
+		}
+		true
+	}
+
+	fn step_tls(&mut self, i: usize) {
+		let conn = self.clients[i].conn;
+		// trickling: deliver pending bytes first, a few at a time, releasing the handler each time
+		if self.clients[i].trickle && self.flush_staged(i) {
+			self.release(conn);
+			return;
+		}
+		let state = std::mem::replace(&mut self.clients[i].tls, Tls::Failed("taken".into()));
+		let next = match state {
+			Tls::NotStarted => {
+				let sni = self.l.plan["expect"]["sni"].as_str().unwrap_or("example.org").to_string();
+				let pipe = ClientPipe { id: conn, w: self.l.w.clone(), staged: self.clients[i].staged.clone(), trickle: self.clients[i].trickle };
+				let connector = self.connector(&self.clients[i].alpn);
+				let cfg = connector.configure().unwrap().verify_hostname(false).use_server_name_indication(true);
+				match cfg.connect(&sni, pipe) {
+					Ok(s) => Tls::Done(s),
+					Err(HandshakeError::WouldBlock(mid)) => Tls::Mid(mid),
+					Err(e) => Tls::Failed(format!("{}", e)),
+				}
+			}
+			Tls::Mid(mid) => match mid.handshake() {
+				Ok(s) => Tls::Done(s),
+				Err(HandshakeError::WouldBlock(mid)) => Tls::Mid(mid),
+				Err(e) => Tls::Failed(format!("{}", e)),
+			},
+			other => other,
+		};
+		self.clients[i].tls = next;
+		// hostile endings
+		if self.clients[i].abandon_after_hello && self.clients[i].steps >= 1 {
+			self.close_client(conn, false);
+			self.release(conn);
+			self.clients[i].finished = true;
+			return;
+		}
+		if self.clients[i].reset_mid_record && self.clients[i].steps >= 1 {
+			// keep only half of what the client wrote, then reset
+			{
+				let (m, _) = &*self.l.w;
+				let mut g = m.lock().unwrap();
+				let keep = g.conns[conn].c2s.len() / 2;
+				g.conns[conn].c2s.truncate(keep);
+			}
+			self.release(conn);
+			self.close_client(conn, true);
+			self.release(conn);
+			self.clients[i].finished = true;
+			return;
+		}
+		if self.clients[i].trickle {
+			self.flush_staged(i);
+		}
+		self.release(conn);
+		match &self.clients[i].tls {
+			Tls::Done(_) | Tls::Failed(_) => {
+				if self.clients[i].kind != "valid" {
+					// a finished hostile/other client closes its end
+					self.close_client(conn, false);
+					self.release(conn);
+				}
+				self.clients[i].finished = true;
+			}
+			_ => {
+				if self.clients[i].steps > 2000 {
+					self.clients[i].tls = Tls::Failed("handshake did not finish in 2000 steps".into());
+					self.clients[i].finished = true;
+				}
+			}
+		}
+	}
+
+	/// C16's oracle on the completed valid handshake
+	fn judge(&mut self, i: usize) -> Value {
+		let exp = self.l.plan["expect"].clone();
+		let mut problems: Vec<String> = vec![];
+		let mut facts = json!({});
+		match &self.clients[i].tls {
+			Tls::Done(s) => {
+				let ssl = s.ssl();
+				let alpn = ssl.selected_alpn_protocol().map(|p| String::from_utf8_lossy(p).to_string());
+				facts["alpn"] = json!(alpn);
+				if alpn.as_deref() != Some("acme-tls/1") {
+					problems.push(format!("alpn_not_negotiated:{:?}", alpn));
+				}
+				match ssl.peer_certificate() {
+					None => problems.push("no_peer_certificate".into()),
+					Some(cert) => {
+						// self-signed
+						let self_signed = cert.public_key().map(|k| cert.verify(&k).unwrap_or(false)).unwrap_or(false) && cert.issuer_name().to_der().ok() == cert.subject_name().to_der().ok();
+						if !self_signed {
+							problems.push("not_self_signed".into());
+						}
+						// currently valid (real time: tacd-sim has no virtual clock)
+						let now = openssl::asn1::Asn1Time::days_from_now(0).unwrap();
+						let nb_ok = cert.not_before().compare(&now).map(|o| o != std::cmp::Ordering::Greater).unwrap_or(false);
+						let na_ok = cert.not_after().compare(&now).map(|o| o != std::cmp::Ordering::Less).unwrap_or(false);
+						if !nb_ok || !na_ok {
+							problems.push("not_currently_valid".into());
+						}
+						// exactly one SAN, dNSName == A-label by the harness's own IDNA
+						let want = idna::a_label_name(exp["domain_raw"].as_str().unwrap_or(""));
+						let mut sans = vec![];
+						let mut other = 0;
+						if let Some(list) = cert.subject_alt_names() {
+							for g in list.iter() {
+								match g.dnsname() {
+									Some(d) => sans.push(d.to_string()),
+									None => other += 1,
+								}
+							}
+						}
+						facts["sans"] = json!(sans);
+						facts["want_san"] = json!(want);
+						if sans.len() != 1 || other != 0 || sans[0] != want {
+							problems.push(format!("san_mismatch:{:?}+{}other_vs_{}", sans, other, want));
+						}
+						// acmeIdentifier: critical, OCTET STRING == digest
+						let der_bytes = cert.to_der().unwrap_or_default();
+						match acme_identifier(&der_bytes) {
+							Some((critical, value)) => {
+								let want_hex = exp["digest_hex"].as_str().unwrap_or("").to_lowercase();
+								let got_hex: String = value.iter().map(|b| format!("{:02x}", b)).collect();
+								facts["acme_identifier"] = json!({"critical": critical, "value": got_hex});
+								if !critical {
+									problems.push("acme_identifier_not_critical".into());
+								}
+								if got_hex != want_hex {
+									problems.push(format!("acme_identifier_value:{}_vs_{}", got_hex, want_hex));
+								}
+							}
+							None => problems.push("acme_identifier_missing_or_malformed".into()),
+						}
+						// key type
+						let kt = cert.public_key().map(|k| key_type(&k)).unwrap_or_default();
+						facts["key_type"] = json!(kt);
+						if let Some(w) = exp["key_type"].as_str() {
+							if w != kt {
+								problems.push(format!("key_type:{}_vs_{}", kt, w));
+							}
+						}
+						if let Some(w) = exp["sig_digest"].as_str() {
+							let oid = der::outer_sig_alg_oid(&der_bytes).unwrap_or_default();
+							let d = der::sig_alg_digest(&oid);
+							facts["sig_digest"] = json!(d);
+							if d != w {
+								problems.push(format!("signature_digest:{}_vs_{}", d, w));
+							}
+						}
+					}
+				}
+			}
+			Tls::Failed(e) => problems.push(format!("valid_handshake_failed:{}", e.chars().take(120).collect::<String>())),
+			_ => problems.push("valid_handshake_incomplete".into()),
+		}
+		json!({ "ok": problems.is_empty(), "problems": problems, "facts": facts })
+	}
+}
+
+fn key_type(k: &openssl::pkey::PKey<openssl::pkey::Public>) -> String {
+	use openssl::nid::Nid;
+	use openssl::pkey::Id;
+	match k.id() {
+		Id::RSA => format!("rsa{}", k.bits()),
+		Id::EC => match k.ec_key().ok().and_then(|e| e.group().curve_name()) {
+			Some(Nid::X9_62_PRIME256V1) => "ecdsa-p256".into(),
+			Some(Nid::SECP384R1) => "ecdsa-p384".into(),
+			Some(Nid::SECP521R1) => "ecdsa-p521".into(),
+			_ => "ec-other".into(),
+		},
+		Id::ED25519 => "ed25519".into(),
+		Id::ED448 => "ed448".into(),
+		_ => "other".into(),
+	}
+}
+
+/// Locate the acmeIdentifier extension (OID 1.3.6.1.5.5.7.1.31) by a small DER walk:
+/// returns (critical, content of the inner OCTET STRING).
+fn acme_identifier(cert_der: &[u8]) -> Option<(bool, Vec<u8>)> {
+	let cert = der::tlv(cert_der)?;
+	let tbs = der::children(cert.body).into_iter().next()?;
+	for f in der::children(tbs.body) {
+		if f.tag != 0xA3 {
+			continue;
+		}
+		let seq = der::tlv(f.body)?;
+		for ext in der::children(seq.body) {
+			let parts = der::children(ext.body);
+			if parts.is_empty() || parts[0].tag != 0x06 {
+				continue;
+			}
+			if der::oid_to_string(parts[0].body) != "1.3.6.1.5.5.7.1.31" {
+				continue;
+			}
+			let (critical, val) = if parts.len() == 3 && parts[1].tag == 0x01 {
+				(parts[1].body == [0xff], &parts[2])
+			} else if parts.len() == 2 {
+				(false, &parts[1])
+			} else {
+				return None;
+			};
+			if val.tag != 0x04 {
+				return None;
+			}
+			let inner = der::tlv(val.body)?;
+			if inner.tag != 0x04 || !inner.rest.is_empty() {
+				return None;
+			}
+			return Some((critical, inner.body.to_vec()));
+		}
+	}
+	None
+}
+
+impl<'a> Iterator for Incoming<'a> {
+	type Item = io::Result<SimStream>;
+
+	fn next(&mut self) -> Option<io::Result<SimStream>> {
+		// the thread spawned for the stream handed out last must have parked (or finished) before
+		// anything else happens
+		if let Some(c) = self.await_park.take() {
+			self.wait_parked(c);
+		}
+		loop {
+			// choose: start the next behaviour, or step one of the unfinished clients
+			let unfinished: Vec<usize> = (0..self.clients.len()).filter(|i| !self.clients[*i].finished).collect();
+			let can_start = !self.todo.is_empty();
+			let overlap = self.l.plan["overlap"].as_bool().unwrap_or(false);
+			let start_now = can_start && (unfinished.is_empty() || (overlap && splitmix(&mut self.rng) % 3 == 0));
+			if start_now {
+				let b = self.todo.pop_front().unwrap();
+				let count = if b["k"] == "stall" { b["n"].as_u64().unwrap_or(1) } else { 1 };
+				// a "stall" of n connections is n hand-outs: queue the remaining ones
+				if count > 1 {
+					let mut rest = b.clone();
+					rest["n"] = json!(count - 1);
+					self.todo.push_front(rest);
+				}
+				let (id, stream) = self.new_conn();
+				let cl = self.make_client(id, &b);
+				self.events.push(format!("conn{}:{}:open", id, cl.kind));
+				self.clients.push(cl);
+				self.await_park = Some(id);
+				return Some(Ok(stream));
+			}
+			if !unfinished.is_empty() {
+				let pick = unfinished[(splitmix(&mut self.rng) % unfinished.len() as u64) as usize];
+				self.step_client(pick);
+				continue;
+			}
+			// history done: the final, valid handshake
+			if !self.final_started {
+				self.final_started = true;
+				let fin = self.l.plan["final"].clone();
+				let b = if fin.is_object() { fin } else { json!({"k": "valid", "alpn": ["acme-tls/1"]}) };
+				let (id, stream) = self.new_conn();
+				let mut cl = self.make_client(id, &b);
+				cl.kind = "valid".into();
+				if cl.alpn.is_none() {
+					cl.alpn = Some(vec!["acme-tls/1".into()]);
+				}
+				self.events.push(format!("conn{}:final:open", id));
+				self.clients.push(cl);
+				self.await_park = Some(id);
+				return Some(Ok(stream));
+			}
+			// judge
+			let last = self.clients.len() - 1;
+			let expect_refusal = self.l.plan["final"]["expect_refusal"].as_bool().unwrap_or(false);
+			let verdict = if expect_refusal {
+				let refused = matches!(&self.clients[last].tls, Tls::Failed(_));
+				let detail = match &self.clients[last].tls {
+					Tls::Failed(e) => e.chars().take(160).collect::<String>(),
+					Tls::Done(s) => format!("handshake succeeded, alpn {:?}", s.ssl().selected_alpn_protocol().map(|p| String::from_utf8_lossy(p).to_string())),
+					_ => "incomplete".into(),
+				};
+				json!({ "ok": refused, "problems": if refused { vec![] } else { vec![format!("client_offering_only_other_protocols_was_served:{}", detail)] }, "facts": {"refusal": detail} })
+			} else {
+				self.judge(last)
+			};
+			let panicked: Vec<usize> = {
+				let (m, _) = &*self.l.w;
+				let g = m.lock().unwrap();
+				(0..g.conns.len()).filter(|i| g.conns[*i].server_panicked).collect()
+			};
+			let mut v = verdict;
+			v["handler_panics"] = json!(panicked);
+			self.finish(v);
+		}
 	}
 }
